@@ -57,6 +57,79 @@ def arm_blocks(body, sw, target, all_targets):
     return [b for b in r if b not in joined]
 
 
+def maintenance_pairing(ctx, prog, rid):
+    """Every HnswBackend function that writes DocumentStore.metadata / .internal_to_external reaches the inverted-index maintenance on every path to a normal
+    return.  Shared: C11.R2 (filter answers agree with the reference predicate) and C10.R9 (a filter-resolved id set names the documents that were filtered —
+    a stale posting after slot renumbering resolves one tenant's filter to another tenant's documents)."""
+    MAINT = ['MetadataInvertedIndex::insert_doc', 'MetadataInvertedIndex::remove_doc', 'MetadataInvertedIndex::replace_doc', 'MetadataInvertedIndex::rebuild_from']
+    n_w = 0
+    for b in prog.bodies.values():
+        if 'hnsw_backend::HnswBackend::' not in b.id or b.kind != 'AssocFn':
+            continue
+        of = flow.Origin(b)
+        wblocks = []
+        for c in b.calls:
+            if c.callee and c.args and re.search(r'::(push|clear|insert|remove|take|index_mut)$', c.callee):
+                r = flow.render(of.of_operand(c.args[0]))
+                if re.search(r'DocumentStore\.(metadata|internal_to_external)(\[\])?\)*$', r):
+                    wblocks.append(c.bb)
+        for i, blk in enumerate(b.blocks):
+            if i not in b.live_blocks():
+                continue
+            for s in blk['s']:
+                if 'rv' in s and s['pl'].get('p'):
+                    fs = [x for x in s['pl']['p'] if isinstance(x, str) and x != '*']
+                    if fs and re.search(r'DocumentStore\.(metadata|internal_to_external)$', fs[-1]):
+                        wblocks.append(i)
+                    elif any(isinstance(x, dict) and ('ix' in x) for x in s['pl']['p']) and any(isinstance(x, str) and re.search(r'DocumentStore\.(metadata|internal_to_external)$', x) for x in s['pl']['p']):
+                        wblocks.append(i)
+        if not wblocks:
+            continue
+        n_w += 1
+        mb = [c.bb for c in b.calls if c.callee and c.is_(*MAINT)]
+        errs = flow.err_blocks(b)
+        # deferred-maintenance idiom: writes queue (id, old metadata) into a Vec that a later loop drains through the index;
+        # then `queue.is_empty()` cannot be true after a push, and every write must be followed by a push
+        ovb = flow.Origin(b, stop_at_vars=True)
+        queues = set()
+        for mcall in [c for c in b.calls if c.callee and c.is_(*MAINT)]:
+            hs = [h for h in b.calls if h.callee and h.is_('re:Iterator>::next$') and b.dominates(h.bb, mcall.bb) and h.bb in b.reach([mcall.bb])]
+            for h in hs:
+                src = util.loop_source(b, h)
+                if src.startswith('var:'):
+                    queues.add(src)
+        q_push = [c.bb for c in b.calls if c.callee and c.callee.endswith('::push') and c.args and flow.render(ovb.of_operand(c.args[0])) in queues]
+        q_empty = []
+        for i, blk in enumerate(b.blocks):
+            if blk['t']['k'] == 'switch' and queues:
+                for tg, p in flow.switch_edge_predicates(b, i, ovb):
+                    if any(re.match(r'^bool\[.*::is_empty\(%s\)\]$' % re.escape(q), p) for q in queues):
+                        q_empty.append((i, tg))
+        drain_heads = []
+        for mcall in [c for c in b.calls if c.callee and c.is_(*MAINT)]:
+            for h in b.calls:
+                if h.callee and h.is_('re:Iterator>::next$') and b.dominates(h.bb, mcall.bb) and h.bb in b.reach([mcall.bb]) and util.loop_source(b, h) in queues:
+                    drain_heads.append(h.bb)   # reaching the drain loop over a non-empty queue = maintenance happens
+        bad = []
+        for w in sorted(set(wblocks)):
+            r = b.reach(b.succ(w), avoid_blocks=set(mb) | set(drain_heads) | errs, avoid_edges=q_empty if q_push else ())
+            if any(x in r for x in b.return_blocks()):
+                bad.append(w)
+                continue
+            if q_push and drain_heads:
+                # queued maintenance: the write must be followed by a push before the scan loop continues or ends
+                heads = [h.bb for h in b.calls if h.callee and h.is_('re:Iterator>::next$') and w in b.reach([h.bb]) and h.bb in b.reach([w])]
+                r2 = b.reach(b.succ(w), avoid_blocks=set(q_push) | set(mb))
+                if any(h in r2 for h in heads):
+                    bad.append(w)
+        if queues:
+            ctx.exception(rid, b.short, 'deferred maintenance through the queue %s drained by a loop calling the index' % sorted(queues))
+        ctx.inst(rid, b.short, 'metadata/liveness writes are followed by index maintenance', bool(mb) and not bad,
+                 ('write at %s can reach an Ok return without touching the inverted index' % [b.loc_of(w) for w in bad[:3]]) if bad or not mb else
+                 '%d write sites, %d maintenance calls' % (len(set(wblocks)), len(mb)))
+    ctx.floor(rid, 'functions writing document metadata / liveness', n_w, 7, 'insert, update_metadata, delete, batch_delete, compact_tombstones, 2 constructors, recovery')
+
+
 def run(ctx, prog):
     ctx.not_decided = ['OrderedF64::from_f64 preserves f64 order (bit-level fact)', 'behaviour over histories of inserts / updates / compaction']
     # ------------------------------------------------------------------ R1a/b range table
@@ -252,73 +325,7 @@ def run(ctx, prog):
     # ------------------------------------------------------------------ R2 maintenance pairing
     ctx.rule('C11.R2', 'maintenance pairing: every function that writes DocumentStore.metadata or .internal_to_external reaches '
                        'MetadataInvertedIndex::{insert_doc, remove_doc, replace_doc, rebuild_from} on every path from the write to a normal return')
-    MAINT = ['MetadataInvertedIndex::insert_doc', 'MetadataInvertedIndex::remove_doc', 'MetadataInvertedIndex::replace_doc', 'MetadataInvertedIndex::rebuild_from']
-    n_w = 0
-    for b in prog.bodies.values():
-        if 'hnsw_backend::HnswBackend::' not in b.id or b.kind != 'AssocFn':
-            continue
-        of = flow.Origin(b)
-        wblocks = []
-        for c in b.calls:
-            if c.callee and c.args and re.search(r'::(push|clear|insert|remove|take|index_mut)$', c.callee):
-                r = flow.render(of.of_operand(c.args[0]))
-                if re.search(r'DocumentStore\.(metadata|internal_to_external)(\[\])?\)*$', r):
-                    wblocks.append(c.bb)
-        for i, blk in enumerate(b.blocks):
-            if i not in b.live_blocks():
-                continue
-            for s in blk['s']:
-                if 'rv' in s and s['pl'].get('p'):
-                    fs = [x for x in s['pl']['p'] if isinstance(x, str) and x != '*']
-                    if fs and re.search(r'DocumentStore\.(metadata|internal_to_external)$', fs[-1]):
-                        wblocks.append(i)
-                    elif any(isinstance(x, dict) and ('ix' in x) for x in s['pl']['p']) and any(isinstance(x, str) and re.search(r'DocumentStore\.(metadata|internal_to_external)$', x) for x in s['pl']['p']):
-                        wblocks.append(i)
-        if not wblocks:
-            continue
-        n_w += 1
-        mb = [c.bb for c in b.calls if c.callee and c.is_(*MAINT)]
-        errs = flow.err_blocks(b)
-        # deferred-maintenance idiom: writes queue (id, old metadata) into a Vec that a later loop drains through the index;
-        # then `queue.is_empty()` cannot be true after a push, and every write must be followed by a push
-        ovb = flow.Origin(b, stop_at_vars=True)
-        queues = set()
-        for mcall in [c for c in b.calls if c.callee and c.is_(*MAINT)]:
-            hs = [h for h in b.calls if h.callee and h.is_('re:Iterator>::next$') and b.dominates(h.bb, mcall.bb) and h.bb in b.reach([mcall.bb])]
-            for h in hs:
-                src = util.loop_source(b, h)
-                if src.startswith('var:'):
-                    queues.add(src)
-        q_push = [c.bb for c in b.calls if c.callee and c.callee.endswith('::push') and c.args and flow.render(ovb.of_operand(c.args[0])) in queues]
-        q_empty = []
-        for i, blk in enumerate(b.blocks):
-            if blk['t']['k'] == 'switch' and queues:
-                for tg, p in flow.switch_edge_predicates(b, i, ovb):
-                    if any(re.match(r'^bool\[.*::is_empty\(%s\)\]$' % re.escape(q), p) for q in queues):
-                        q_empty.append((i, tg))
-        drain_heads = []
-        for mcall in [c for c in b.calls if c.callee and c.is_(*MAINT)]:
-            for h in b.calls:
-                if h.callee and h.is_('re:Iterator>::next$') and b.dominates(h.bb, mcall.bb) and h.bb in b.reach([mcall.bb]) and util.loop_source(b, h) in queues:
-                    drain_heads.append(h.bb)   # reaching the drain loop over a non-empty queue = maintenance happens
-        bad = []
-        for w in sorted(set(wblocks)):
-            r = b.reach(b.succ(w), avoid_blocks=set(mb) | set(drain_heads) | errs, avoid_edges=q_empty if q_push else ())
-            if any(x in r for x in b.return_blocks()):
-                bad.append(w)
-                continue
-            if q_push and drain_heads:
-                # queued maintenance: the write must be followed by a push before the scan loop continues or ends
-                heads = [h.bb for h in b.calls if h.callee and h.is_('re:Iterator>::next$') and w in b.reach([h.bb]) and h.bb in b.reach([w])]
-                r2 = b.reach(b.succ(w), avoid_blocks=set(q_push) | set(mb))
-                if any(h in r2 for h in heads):
-                    bad.append(w)
-        if queues:
-            ctx.exception('C11.R2', b.short, 'deferred maintenance through the queue %s drained by a loop calling the index' % sorted(queues))
-        ctx.inst('C11.R2', b.short, 'metadata/liveness writes are followed by index maintenance', bool(mb) and not bad,
-                 ('write at %s can reach an Ok return without touching the inverted index' % [b.loc_of(w) for w in bad[:3]]) if bad or not mb else
-                 '%d write sites, %d maintenance calls' % (len(set(wblocks)), len(mb)))
-    ctx.floor('C11.R2', 'functions writing document metadata / liveness', n_w, 7, 'insert, update_metadata, delete, batch_delete, compact_tombstones, 2 constructors, recovery')
+    maintenance_pairing(ctx, prog, 'C11.R2')
     rb = ctx.body('C11.R2', 'MetadataInvertedIndex::rebuild_from')
     rbo = flow.Origin(rb, stop_at_vars=True)
     skip = [p for i, blk in enumerate(rb.blocks) if blk['t']['k'] == 'switch' for tg, p in flow.switch_edge_predicates(rb, i, rbo) if 'is_none' in p or 'variant(' in p and 'alive' in p]
